@@ -128,5 +128,5 @@ LimCases(coins, mn, walks) ==
 FlagCases == {[coin |-> c, walk |-> 1, shape |-> <<D("p2pkh", 1, <<1>>, "c")>>, ht |-> 1, mech |-> "lookup"] : c \in AllCoins}
 LimCasesQ == LimCases({"BTC"}, {<<15, 15>>, <<20, 20>>, <<9, 12>>, <<7, 7>>, <<8, 15>>, <<2, 16>>}, 3)
              \cup LimCases({"BCH", "BTG"}, {<<15, 15>>, <<9, 12>>}, 2)
-LimCasesT == LimCases({"BTC"}, LimMN, 5) \cup LimCases({"BCH", "BTG", "XTN", "LTC", "DOGE"}, {<<15, 15>>, <<9, 12>>, <<20, 20>>}, 3)
+LimCasesT == LimCases({"BTC"}, LimMN, 4) \cup LimCases({"BCH", "BTG", "LTC"}, {<<15, 15>>, <<9, 12>>, <<20, 20>>}, 2)
 =============================================================================
